@@ -32,17 +32,18 @@ def obligations(tier, ctx):
                           backend="P", timeout=120, family="protocol handler step"))
     from symcheck import consts
     lim = 410 if tier == "quick" else 1100
-    nc = len(consts.size_cases(lim))
+    nc, nc1 = len(consts.size_cases(lim)), len(consts.size_cases(1100))
     for op in OPS:
         if tier == "quick" and op in ("list", "count", "clear"):
             continue
+        big = op in ("create", "cleanup")
         obs.append(Ob(name=f"{op}_many", params=[("k", "int"), ("tsel", "int"), ("agesel", "int")],
-                      pre=[f"0 <= k < {nc}", ("0 <= tsel <= 3" if op in ("get", "update", "delete") else "tsel == 0"), ("0 <= agesel <= 3" if op == "cleanup" else "agesel == 0")],
-                      call=f"H.step_many({op!r}, k, tsel, agesel, {lim})", backend="P", timeout=900, family="count: one operation on a store of c-1, c, c+1 sessions (c: integer constants of the source)"))
+                      pre=[f"0 <= k < {nc1 if big else nc}", ("0 <= tsel <= 3" if op in ("get", "update", "delete") else "tsel == 0"), ("0 <= agesel <= 3" if op == "cleanup" else "agesel == 0")],
+                      call=f"H.step_many({op!r}, k, tsel, agesel, {1100 if big else lim})", backend="P", timeout=900, family="count: one operation on a store of c-1, c, c+1 sessions (c: integer constants of the source)"))
     for op in ("initialize", "initialize_sid", "request"):
         obs.append(Ob(name=f"handler_{op}_many", params=[("k", "int"), ("tsel", "int"), ("idsel", "int")],
-                      pre=[f"0 <= k < {nc}", ("0 <= tsel <= 3" if op != "initialize" else "tsel == 3"), ("0 <= idsel <= 1" if op != "request" else "idsel == 0")],
-                      call=f"H.handler_many({op!r}, k, tsel, idsel, {lim})", backend="P", timeout=900, family="count: one handler step on a store of c-1, c, c+1 sessions"))
+                      pre=[f"0 <= k < {nc1 if op == 'initialize' else nc}", ("0 <= tsel <= 3" if op != "initialize" else "tsel == 3"), ("0 <= idsel <= 1" if op != "request" else "idsel == 0")],
+                      call=f"H.handler_many({op!r}, k, tsel, idsel, {1100 if op == 'initialize' else lim})", backend="P", timeout=900, family="count: one handler step on a store of c-1, c, c+1 sessions"))
     obs.append(Ob(name="unique_ids", params=[("x", "int")], pre=["x == 0"], call="H.unique_ids(5)", backend="P", timeout=60, family="id generation"))
     from symcheck.runner import mirror
     obs += mirror(obs, r"^handler_(initialize|initialize_sid|request|request_unknown|notification_unknown)_n1$", "F", limit=(5 if tier == "quick" else None))
